@@ -36,6 +36,7 @@ type c16Case struct {
 	Layers      []c16Layer
 	Base        string // HTTP carriers: base path on both sides ("" = "/")
 	ClientBidi  bool   // the client opens streams with a {client,server}-streaming descriptor whatever the method's flags (as generic proxies do)
+	NoSlash     bool   // the client names the method without the leading slash (both transports accept that); interceptors are still told the canonical name
 	Shared      bool   // the same decorated description is registered with a second carrier that has its own transport interceptors
 	TUnary2     string
 	TStream2    string
@@ -450,7 +451,11 @@ func propC16(c c16Case) *Outcome {
 				if c.ClientBidi {
 					cdesc = &grpc.StreamDesc{StreamName: s.Name, ClientStreams: true, ServerStreams: true}
 				}
-				cs, err := conn.NewStream(ctx, cdesc, "/"+c16Svc+"/"+s.Name)
+				name := "/" + c16Svc + "/" + s.Name
+				if c.NoSlash && c.Carrier == cInproc {
+					name = name[1:]
+				}
+				cs, err := conn.NewStream(ctx, cdesc, name)
 				if err != nil {
 					gotErr = err
 					return
@@ -468,7 +473,11 @@ func propC16(c c16Case) *Outcome {
 				return
 			}
 			out := new(pb.Message)
-			gotErr = conn.Invoke(ctx, fmt.Sprintf("/%s/U%d", c16Svc, c.Index), &pb.Message{Count: 5}, out)
+			name := fmt.Sprintf("/%s/U%d", c16Svc, c.Index)
+			if c.NoSlash && c.Carrier == cInproc {
+				name = name[1:]
+			}
+			gotErr = conn.Invoke(ctx, name, &pb.Message{Count: 5}, out)
 			if gotErr == nil {
 				gotResp = out
 			}
@@ -564,6 +573,7 @@ func genC16(t *rapid.T) c16Case {
 	}
 	c.HandlerFail = rapid.IntRange(0, 4).Draw(t, "hfail") == 0
 	c.ClientBidi = rapid.IntRange(0, 2).Draw(t, "clientbidi") == 0
+	c.NoSlash = rapid.IntRange(0, 4).Draw(t, "noslash") == 0
 	if c.Carrier == cHTTP || c.Carrier == cHTTPMux {
 		c.Base = rapid.SampledFrom([]string{"", "", "/api/", "/v1/rpc"}).Draw(t, "base")
 	}
